@@ -60,10 +60,11 @@ CLAIMED = {
             "round trips on a colour lattice, hue in [0,360) for every finite double"),
     "C32": ("E1+E2", "Kani/CBMC on invert / rotate_hue / set_alpha; MIR symbolic execution of the lighten/darken/fade closures",
             "bounded model checking (kernel scope): involution and cancellation laws for all in-range doubles"),
-    "C18": ("E2", "symbolic execution of FormalArgs::eval (MIR) with forking stubs for the argument containers and the scope; obligations decided by z3 and cvc5",
+    "C18": ("E2", "symbolic execution of FormalArgs::eval, Closure::eval_value and MixinDecl::get (MIR) with forking stubs for the argument containers and the scope; obligations decided by z3 and cvc5",
             "bounded model checking (binding scope): parameters are bound in order to the positional value, else the named value, else the default evaluated in the "
             "callee's argument scope after the parameters to its left; missing, too many and left-over named arguments are errors; the rest parameter takes what is left; "
-            "splats, definition-site scoping, @return and @content are outside"),
+            "functions and mixins bind in a child of their definition-site scope and evaluate their own body there, mixin arguments are evaluated at the call site; "
+            "splats, which @return is reached, and @content are outside"),
     "C20": ("E2", "symbolic execution of RuleDest::push_item / commit_rule and of the destinations' start_atmedia / start_atrule (MIR); z3 and cvc5",
             "bounded model checking (bubbling scope): an item that cannot live inside a style rule is handed unchanged to the parent after the declarations collected so far were "
             "committed, later declarations go to a fresh rule with the same selectors, a nested @media / at-rule starts with a rule copied from the parent's selectors; "
